@@ -86,6 +86,20 @@ def in_space(problem, s=None):
     return all(s[c.start:c.end] in [str(v) for v in c.variants] for c in problem.mutation_space.choices_list)
 
 
+def restrictions_respected(problem, seq0, s=None):
+    """hard restrictions read directly from the constraints' restrict_nucleotides() on the sequence the problem was built
+    from (not from the mutation space the code derived from them)"""
+    from gen import hard
+    s = problem.sequence if s is None else s
+    stub = hard.Stub(seq0)
+    stub.constraints = problem.constraints
+    try:
+        restrs = hard.restrictions_of(stub)
+    except Exception:
+        return True
+    return all(s[a:b] in vs for a, b, vs in restrs)
+
+
 def shrink_best(out):
     best, hist = {}, {}
     for c in out:
